@@ -91,6 +91,57 @@ def cchar(c):
     return "'\\x%02x'" % c
 
 
+def canonical_name(ct):
+    """Compiler-independent token form of a rule type as written in the source: identifiers without namespaces, < > , ,
+    character literals as #<byte>, integers as N<value>.  "" when the type contains something whose printed form is not
+    predictable (utf8 code points, types from other namespaces with defaults, ...)."""
+    if re.search(r"utf8|utf16|utf32|uint|0x|raw_string|rep_string|if_then\b|::else|true|false", ct):
+        return ""
+    out = []
+    i = 0
+    n = len(ct)
+    while i < n:
+        c = ct[i]
+        if c.isspace():
+            i += 1
+        elif c in "<>,":
+            out.append(c)
+            i += 1
+        elif c == "'":
+            j = i + 1
+            if ct[j] == "\\":
+                if ct[j + 1] == "x":
+                    k = j + 2
+                    while ct[k] != "'":
+                        k += 1
+                    v = int(ct[j + 2:k], 16)
+                    j = k
+                else:
+                    return ""
+            else:
+                v = ord(ct[j])
+                j += 1
+            if ct[j] != "'":
+                return ""
+            out.append("#%d" % (v & 255))
+            i = j + 1
+        elif c.isdigit():
+            j = i
+            while j < n and ct[j].isdigit():
+                j += 1
+            out.append("N%d" % int(ct[i:j]))
+            i = j
+        elif c.isalpha() or c == "_" or c == ":":
+            j = i
+            while j < n and (ct[j].isalnum() or ct[j] in "_:"):
+                j += 1
+            out.append(ct[i:j].split("::")[-1])
+            i = j
+        else:
+            return ""
+    return " ".join(out)
+
+
 def chars(s):
     return ", ".join(cchar(c) for c in s)
 
@@ -708,6 +759,9 @@ def emit_grammar(g, gi, cfgset_macro="VF_CFGS"):
             parts.append("n.mi_rof = true;")
         if m.ctype:
             parts.append("n.tname = vf::rule_name< %s >();" % m.ctype)
+            cn = canonical_name(m.ctype)
+            if cn:
+                parts.append('n.cname = "%s";' % cn)
         out.append(" { auto& n = g.nodes[ %d ]; %s }" % (i, " ".join(parts)))
     seen = set()
     for ct, idx in L.reg:
@@ -841,6 +895,11 @@ class Gen:
             return N("seq", [N("one", s=r.choice("ab")), N("one", s=r.choice("abc"))])
         if a == "slot":
             return N("slot", k=r.randrange(self.slots))
+        # ---- characters that are delimiters in the compiler's spelling of a type (what demangle<>() has to cut out) ----
+        if a == "punct_one":
+            return N("one", s=r.choice([";", "]", "=", "[", ",", ">", " ", "'", ";]", "=;"]))
+        if a == "punct_string":
+            return N("string", s=r.choice([";;", "];", "a;", "=]", "; ", ">;"]))
         # ---- bytes that text-oriented code mishandles: NUL inside literals, 0xff / 0x80 (negative as char) ----
         if a == "bin_one":
             return N("one", s=r.choice(["\x00", "\xff", "\x80", "\x00a", "a\xff"]))
